@@ -50,7 +50,12 @@ func (c *Case) FullName() string {
 		return c.Name
 	}
 
-	return fmt.Sprintf("%s %s", c.Parent.FullName(), c.Name)
+	parentFullName := c.Parent.FullName()
+	if parentFullName == "" {
+		return c.Name
+	}
+
+	return fmt.Sprintf("%s %s", parentFullName, c.Name)
 }
 
 func (c *Case) FullNameWithSeparator() string {
@@ -58,7 +63,12 @@ func (c *Case) FullNameWithSeparator() string {
 		return c.Name
 	}
 
-	return fmt.Sprintf("%s > %s", c.Parent.FullNameWithSeparator(), c.Name)
+	parentFullName := c.Parent.FullNameWithSeparator()
+	if parentFullName == "" {
+		return c.Name
+	}
+
+	return fmt.Sprintf("%s > %s", parentFullName, c.Name)
 }
 
 func isDone(ctx context.Context) bool {
